@@ -88,6 +88,8 @@ class ResurrectorSink(ClientMessageSink):
         self._log.info('Reopened channel.')
         return
       except GreenletExit:
+        # Closed while the attempt was in flight, abandon it.
+        sink.Close()
         return
       except:
         sink.Close()
